@@ -355,6 +355,7 @@ pub fn worker(args: &[String]) -> i32 {
 pub fn run(tier: Tier) -> i32 {
     let mut rep = Report::new("C07", tier, "model_checking");
     rep.set("rule", json!("(agreement) 25 documents (every feature family, 9 failing ones, empty output, CRLF, BOM, non-UTF-8) x 7 configurations expressible in every front-end: transform_str = transform_stream = svgdx {file,stdin}->{file,stdout} = POST /api/transform, Err <=> exit status 1 with a message <=> HTTP 400 text/plain. (histories) breadth-first search over all sequences of <= 3 (thorough 4) requests from an 8-request alphabet (random values, other seed via <config>, defining ids/variables, referring to undefined ids/variables, failing, changing limits/theme via <config>, real SVG, loops + random) against ONE library process and ONE live server: in every state the last response equals that request's solo response. (schedules) a controlled scheduler over real OS threads (scheduling points: per-tag loop, PRNG access, set_var, update_element via the sched_point hook; only one thread runs at a time) explores for every ordered pair (thorough: and some triples) of 7 documents every interleaving with <= 2 preemptions for pairs and <= 1 for a triple (thorough: EVERY interleaving of each pair, <= 3 preemptions for 5 triples), iterating the bound; each thread's result must equal its solo result; one recorded schedule is replayed twice and must reproduce. (no damage) every failing document x output-file state {absent, empty, previous good output, arbitrary bytes, read-only} x {file, stdin} input: non-zero exit, message, output path holds exactly its previous content; same-file refusal for the output spelled identically, relatively, with ./, with a .. component, via a symlink, a symlinked directory and a hard link; (environment faults) a succeeding document with TMPDIR missing / a file, output a directory / under a missing directory / a full device, stdout a full device: non-zero exit, message, previous output content untouched; the standard streams redirected from/to the input file are refused and pipes, /dev/stdin, /dev/stdout, an equal-content copy are accepted twice in a row with the library's bytes. (I/O faults) an LD_PRELOAD injector numbers every data-moving call of the command on its files (open-for-writing, read, write, copy_file_range, sendfile, ftruncate, fchmod, rename) and EVERY fault point k=1..N x {ENOSPC, EIO, EINTR, EDQUOT, short transfer then ENOSPC, sticky ENOSPC} x {small, large document} x {file, stdin} x {output absent, previous content} is run: exit 0 => exactly the library's bytes; otherwise a message and the previous output untouched; fault points must be identical between two counting runs. Also: an error value / non-zero exit comes with zero bytes written to the writer / stdout; documents of 2 MiB and 2 MiB+1 through the server. States/transitions: distinct histories + schedules / executions of the real transform."));
+    rep.set("also_later", json!("Rounds 3-5 added: stdout which cannot be written for output without a line break; a document with local styles in the agreement leg (the id may not depend on the clock)."));
     let docs = documents();
     let cfgs = cli_configs();
     let tmp = std::path::PathBuf::from(format!("/verif/target/tmp-c07-{}", std::process::id()));
